@@ -70,7 +70,7 @@ PROPS = {
                       {"engine": "hdr", "test": "FuzzVF_C14_Header", "kind": "fuzz", "tiers": ["thorough"], "thorough_secs": 90}]},
     "C15": {"level": "exploration", "assumptions": BASE_ASSUME + ["background and threshold are read in-package from the detector; threshold tolerance +-1 for float accumulation"],
             "parts": [{"engine": "mp", "test": "TestVF_C15", "quick": (4, 4000), "thorough": (16, 40000)}]},
-    "C10": {"level": "fault_enumeration", "assumptions": BASE_ASSUME + ["process kill only (as the property says); a kill on entering a file-system system call of the handleConn thread leaves exactly the on-disk state a concurrent observer could see at that instant", "strace (ptrace) is available; crash points are numbered on a reference run of the same stream and verified per run (misaligned runs are skipped and counted)", "the constant-recordings sub-directory is judged only by 'every .cptv decodes'; the start-up clean-up covers the top-level output directory"],
+    "C10": {"level": "fault_enumeration", "assumptions": BASE_ASSUME + ["process kill only (as the property says); a kill on entering a file-system system call of the handleConn thread leaves exactly the on-disk state a concurrent observer could see at that instant", "strace (ptrace) is available; crash points are numbered on a reference run of the same stream and verified per run (misaligned runs are skipped and counted)", "the daemon's own start-up (runMain up to listening for the camera) is run for the first five crash states with debris of every stream when a private dbus-daemon can be started; all other states, and all states where it cannot, are judged after calling the start-up clean-up function deleteTempFiles directly"],
             "parts": [{"engine": "e2e", "test": "TestVF_C10", "quick": (8, 1), "thorough": (16, 2), "quick_env": {"VERIF_C10_POINTS": 30}, "shrinktime": "1s", "quick_timeout": 600, "thorough_timeout": 3000}]},
     "C11": {"level": "exploration", "assumptions": BASE_ASSUME + ["handleConn is driven over net.Pipe in lock step; no system D-Bus (calls to peer daemons fail fast and are ignored by the code); distinct recordings start in distinct milliseconds (the sender paces frames); altitude >= 0 (go-cptv does not store negative altitudes)"],
             "parts": [{"engine": "e2e", "test": "TestVF_C11", "quick": (4, 150), "thorough": (16, 1500), "shrinktime": "10s"}]},
